@@ -394,6 +394,8 @@ func runC18Families(tier string, rng *RNG, o *Out) (int, error) {
 	if tier == "race" {
 		nH, nRe, nW = 1, 2, 2
 	}
+	// family K (producers parked inside Emit while Stop runs, c18d.go) runs at the same time as family B
+	waitParked := c18RunParked(tier, rng, o)
 	var bs []c18Blocked
 	for _, st := range strategies {
 		for i := 0; i < nH; i++ {
@@ -429,6 +431,11 @@ func runC18Families(tier string, rng *RNG, o *Out) (int, error) {
 		if c18IsStuck(lines[i]) || strings.Contains(lines[i], " so:") {
 			stuck++
 		}
+	}
+	if n, err := waitParked(); err != nil {
+		return stuck, err
+	} else {
+		stuck += n
 	}
 	if stuck >= c18MaxStuck {
 		return stuck, nil
